@@ -221,6 +221,9 @@ type condState struct {
 
 func NewCond(l Locker) *Cond { return &Cond{L: l, s: new(condState)} }
 func (c *Cond) Wait() {
+	// sync.Cond.Wait enqueues the caller (notifyListAdd) as its first action; nothing orders that enqueue with
+	// the caller's preceding instruction except the mutex the caller holds, so a scheduling point belongs here
+	y("CondWaitEnter", unsafe.Pointer(c.s), nil)
 	t := atomic.AddInt64(&c.s.next, 1) - 1
 	y("CondWaitUnlock", unsafe.Pointer(c.s), nil)
 	note("CondPark", unsafe.Pointer(c.s), 0)
